@@ -19,12 +19,19 @@
    F    delivery: `delivery_never_skips` (any item/byte limit, any cut)
    G    reload: `truncate_keeps_prefix`, `load_inv` (restart point ≥ last version read)
    H    groups: `calcGroup_longest_prefix`, `rebuild_groups`, `group_assignment`
-   Partial (see the comment before `converges_step_partial`): one end-to-end "replica tree converges" theorem over all
-   schedules with compaction and truncated reloads is not proved; the per-step facts it is made of are, and the
-   direct oracle of cmd/verif-c20 checks the end-to-end statement on the real code at every synced point.
+   J    convergence: `converges` (one hop, every schedule of upstream edits / limited and cut deliveries / Save /
+        restarts from a file truncated anywhere, compact or not), `replicas_same_hash`
+   H2   `groups_ordered_every_batch` (groupsOrdered = the enabled user groups after EVERY batch)
+   C2   `valid_unique`, `lookup_by_name_checked_source` (the lookup theorem for every history of a source that checks
+        the name at the moment of the edit: renames and reuse of freed names included), `lookup_after_reuse`
+   Helper developments: SH/Lemmas/Journal.lean (E, F, G), SH/Lemmas/JournalConv.lean (J).
+   Partial: a replica whose upstream itself is rolled back (agent behind a restarting aggregator) is outside
+   `converges` (comment after `replicas_same_hash`); the direct oracle of cmd/verif-c20 checks it on the real code.
 -/
 import SH.Model.Journal
 import SH.Model.MetaIndex
+import SH.Lemmas.Journal
+import SH.Lemmas.JournalConv
 
 namespace SH.C20
 open SH.MetaIndex
@@ -186,7 +193,8 @@ def srcOf (e : IEv) : SEv := { typ := e.typ, id := e.id, name := e.name, ver := 
 def Latest (H : List SEv) (e : SEv) (v : Int) : Prop :=
   e ∈ H ∧ e.ver ≤ v ∧ ∀ e' ∈ H, e'.typ = e.typ → e'.id = e.id → e'.ver ≤ v → e'.ver ≤ e.ver
 
-/-- at every source version, two different entities of one type never hold the same name -/
+/-- at every source version, two different entities of one type never hold the same name AT THE SAME TIME. A name
+    freed by a rename may be taken by another entity later (reuse is allowed: `wH_unique`, `valid_unique`). -/
 def UniqueNames (H : List SEv) : Prop :=
   ∀ v e1 e2, Latest H e1 v → Latest H e2 v → e1.typ = e2.typ → e1.name = e2.name → e1.id = e2.id
 
@@ -471,273 +479,6 @@ theorem sinv_init (H : List SEv) : SInv H MetaIndex.init 0 := by
       exact ⟨rfl, rfl⟩
 
 
-
-/-! ## E. the state hash is the xor of the entry hashes; one entry per entity, ascending -/
-
-def xorAll : List Entry → Nat
-  | [] => 0
-  | e :: r => e.hash ^^^ xorAll r
-
-theorem xorAll_append (a b : List Entry) : xorAll (a ++ b) = xorAll a ^^^ xorAll b := by
-  induction a with
-  | nil => simp [xorAll]
-  | cons h r ih => simp [xorAll, ih, Nat.xor_assoc]
-
-theorem sameKey_iff (a b : Entry) : sameKey a b = true ↔ a.typ = b.typ ∧ a.id = b.id := by
-  simp [sameKey]
-
-theorem sameKey_symm (a b : Entry) : sameKey a b = sameKey b a := by
-  by_cases h : sameKey a b = true
-  · rw [h]; symm; rw [sameKey_iff] at *; exact ⟨h.1.symm, h.2.symm⟩
-  · have h' : sameKey b a ≠ true := by
-      intro hb; apply h; rw [sameKey_iff] at *; exact ⟨hb.1.symm, hb.2.symm⟩
-    simp at h h'; rw [h, h']
-
-theorem sameKey_false_of (e h b : Entry) (h1 : sameKey e h = true) (h2 : sameKey h b = false) : sameKey e b = false := by
-  by_cases hb : sameKey e b = true
-  · exfalso
-    have : sameKey h b = true := by
-      rw [sameKey_iff] at *; exact ⟨h1.1.symm.trans hb.1, h1.2.symm.trans hb.2⟩
-    rw [h2] at this; simp at this
-  · simpa using hb
-
-def KeysUnique (es : List Entry) : Prop := es.Pairwise (fun a b => sameKey a b = false)
-
-theorem xorAll_filter (e : Entry) : ∀ (es : List Entry), KeysUnique es →
-    xorAll (es.filter (fun o => !sameKey e o)) ^^^ oldHash es e = xorAll es := by
-  intro es
-  induction es with
-  | nil => intro _; simp [xorAll, oldHash, findKey]
-  | cons h r ih =>
-    intro hk
-    obtain ⟨hh, hr⟩ := List.pairwise_cons.mp hk
-    by_cases hs : sameKey e h = true
-    · have hall : ∀ b ∈ r, (!sameKey e b) = true := by
-        intro b hb; rw [sameKey_false_of e h b hs (hh b hb)]; rfl
-      have hf : r.filter (fun o => !sameKey e o) = r := List.filter_eq_self.mpr hall
-      simp [List.filter, hs, hf, oldHash, findKey, List.find?, xorAll, Nat.xor_comm]
-    · have hs' : sameKey e h = false := by simpa using hs
-      have := ih hr
-      simp only [List.filter, hs', Bool.not_false, xorAll, oldHash, findKey, List.find?] at this ⊢
-      rw [Nat.xor_assoc, this]
-
-/-- invariant of every reachable journal -/
-structure JInv (j : J) : Prop where
-  keys : KeysUnique j.entries
-  hash : j.hash = xorAll j.entries
-  sorted : j.entries.Pairwise (fun a b => a.ver < b.ver)
-  bound : ∀ e ∈ j.entries, e.ver ≤ j.cur
-
-theorem jinv_empty (c : Bool) : JInv { compact := c } :=
-  ⟨List.Pairwise.nil, rfl, List.Pairwise.nil, by intro e he; simp at he⟩
-
-theorem add_inv (j j' : J) (e : Entry) (hi : JInv j) (h : add j e = some j') :
-    JInv j' ∧ j'.cur = e.ver ∧ j.cur < e.ver ∧ j'.compact = j.compact ∧ e ∈ j'.entries := by
-  unfold add at h
-  split at h
-  · simp at h
-  · rename_i hold
-    have hlt : j.cur < e.ver := by simpa [tooOld] using hold
-    injection h with h
-    subst h
-    refine ⟨⟨?_, ?_, ?_, ?_⟩, rfl, hlt, rfl, by simp⟩
-    · refine List.pairwise_append.mpr ⟨hi.keys.filter _, List.pairwise_singleton _ _, ?_⟩
-      intro a ha b hb
-      simp at hb; subst hb
-      have := (List.mem_filter.mp ha).2
-      rw [sameKey_symm]; simpa using this
-    · simp only
-      rw [xorAll_append, hi.hash, ← xorAll_filter e j.entries hi.keys]
-      simp [xorAll, Nat.xor_assoc]
-    · refine List.pairwise_append.mpr ⟨hi.sorted.filter _, List.pairwise_singleton _ _, ?_⟩
-      intro a ha b hb
-      simp at hb; subst hb
-      have := hi.bound a (List.mem_filter.mp ha).1
-      omega
-    · intro a ha
-      simp only at ha ⊢
-      rcases List.mem_append.mp ha with h1 | h1
-      · have := hi.bound a (List.mem_filter.mp h1).1; omega
-      · simp at h1; subst h1; exact Int.le_refl _
-
-/-- `addEventLocked` in a row: versions must increase strictly (else the Go code panics), and then the invariant,
-    the hash equation and "everything added is ≤ currentVersion" hold -/
-theorem addAll_inv : ∀ (es : List Entry) (j j' : J), JInv j → addAll j es = some j' →
-    JInv j' ∧ j.cur ≤ j'.cur ∧ (∀ e ∈ es, j.cur < e.ver ∧ e.ver ≤ j'.cur) ∧ es.Pairwise (fun a b => a.ver < b.ver) ∧
-    j'.compact = j.compact := by
-  intro es
-  induction es with
-  | nil => intro j j' hi h; simp [addAll] at h; subst h; exact ⟨hi, Int.le_refl _, by simp, List.Pairwise.nil, rfl⟩
-  | cons e r ih =>
-    intro j j' hi h
-    simp only [addAll] at h
-    split at h
-    · rename_i j1 h1
-      obtain ⟨i1, c1, l1, k1, _⟩ := add_inv j j1 e hi h1
-      obtain ⟨i2, c2, a2, p2, k2⟩ := ih j1 j' i1 h
-      refine ⟨i2, by omega, ?_, ?_, k2.trans k1⟩
-      · intro x hx
-        rcases List.mem_cons.mp hx with rfl | hx
-        · exact ⟨l1, by omega⟩
-        · have := a2 x hx; exact ⟨by omega, this.2⟩
-      · refine List.pairwise_cons.mpr ⟨?_, p2⟩
-        intro x hx; have := a2 x hx; omega
-    · simp at h
-
-theorem applyUpdate_inv (tab : Nat → Content) (j j' : J) (src applied : List Entry) (lk : Int) (hi : JInv j)
-    (h : applyUpdate tab j src lk = some (j', applied)) :
-    JInv j' ∧ (∀ e ∈ applied, j.cur < e.ver) ∧ applied.Pairwise (fun a b => a.ver < b.ver) := by
-  unfold applyUpdate at h
-  split at h
-  · injection h with h; injection h with h1 h2; subst h1; subst h2
-    exact ⟨hi, by simp, List.Pairwise.nil⟩
-  · split at h
-    · simp at h
-    · rename_i j1 h1
-      injection h with h; injection h with h2 h3; subst h2; subst h3
-      obtain ⟨i1, _, a1, p1, _⟩ := addAll_inv _ j j1 hi h1
-      exact ⟨⟨i1.keys, i1.hash, i1.sorted, i1.bound⟩, fun e he => (a1 e he).1, p1⟩
-
-theorem loadChunks_inv : ∀ (cs : List Chunk) (j j' : J) (bs : List (List Entry)), JInv j →
-    loadChunks j cs = some (j', bs) →
-    JInv j' ∧ (∀ e ∈ bs.flatten, j.cur < e.ver) ∧ bs.flatten.Pairwise (fun a b => a.ver < b.ver) := by
-  intro cs
-  induction cs with
-  | nil => intro j j' bs hi h; simp [loadChunks] at h; obtain ⟨rfl, rfl⟩ := h; exact ⟨hi, by simp, by simp⟩
-  | cons c r ih =>
-    intro j j' bs hi h
-    simp only [loadChunks] at h
-    split at h
-    · simp at h
-    · rename_i j1 h1
-      split at h
-      · simp at h
-      · rename_i j2 bs2 h2
-        injection h with h; injection h with h3 h4; subst h3; subst h4
-        obtain ⟨i1, c1, a1, p1, _⟩ := addAll_inv _ j j1 hi h1
-        obtain ⟨i2, a2, p2⟩ := ih j1 j2 bs2 i1 h2
-        refine ⟨i2, ?_, ?_⟩
-        · intro e he
-          simp only [List.flatten_cons, List.mem_append] at he
-          rcases he with he | he
-          · exact (a1 e he).1
-          · have := a2 e he; omega
-        · simp only [List.flatten_cons]
-          refine List.pairwise_append.mpr ⟨p1, p2, ?_⟩
-          intro a ha b hb
-          have := (a1 a ha).2; have := a2 b hb; omega
-
-theorem load_inv (c : Bool) (f : File) (j : J) (bs : List (List Entry)) (err : Bool)
-    (h : load c f = some (j, bs, err)) :
-    JInv j ∧ (∀ e ∈ bs.flatten, 0 < e.ver) ∧ bs.flatten.Pairwise (fun a b => a.ver < b.ver) ∧ j.cur ≤ j.lv := by
-  unfold load at h
-  split at h
-  · simp at h
-  · rename_i j1 bs1 h1
-    injection h with h; injection h with h2 h3; injection h3 with h3 h4; subst h2; subst h3
-    obtain ⟨i1, a1, p1⟩ := loadChunks_inv _ _ j1 bs1 (jinv_empty c) h1
-    refine ⟨⟨i1.keys, i1.hash, i1.sorted, i1.bound⟩, a1, p1, ?_⟩
-    simp only
-    split
-    · rename_i hok
-      unfold headerOk at hok
-      unfold headerLv
-      split at hok
-      · rename_i he; simp [he]; have : j1.cur = 0 := by simpa using hok
-        omega
-      · rename_i he; simp [he]; simp at hok; omega
-    · exact Int.le_refl _
-
-theorem xorAll_perm (a b : List Entry) (h : (a.map (·.hash)).Perm (b.map (·.hash))) : xorAll a = xorAll b := by
-  have key : ∀ l : List Entry, xorAll l = (l.map (·.hash)).foldr (· ^^^ ·) 0 := by
-    intro l; induction l with
-    | nil => rfl
-    | cons x r ih => simp [xorAll, ih]
-  have perm : ∀ {x y : List Nat}, x.Perm y → x.foldr (· ^^^ ·) 0 = y.foldr (· ^^^ ·) 0 := by
-    intro x y hp
-    induction hp with
-    | nil => rfl
-    | cons a _ ih => simp [ih]
-    | swap a b l =>
-      simp only [List.foldr_cons]
-      rw [← Nat.xor_assoc, Nat.xor_comm b a, Nat.xor_assoc]
-    | trans _ _ ih1 ih2 => exact ih1.trans ih2
-  rw [key, key]
-  exact perm h
-
-
-
-/-! ## F. a diff is a non-empty gap-free prefix of what the requester lacks -/
-
-theorem takeLim_prefix (mi mb : Nat) : ∀ (l : List Entry) (n b : Nat), takeLim mi mb l n b <+: l := by
-  intro l
-  induction l with
-  | nil => intro n b; simp [takeLim]
-  | cons e r ih =>
-    intro n b
-    simp only [takeLim]
-    split
-    · exact ⟨r, rfl⟩
-    · exact List.prefix_cons_inj e |>.mpr (ih _ _)
-
-theorem takeLim_ne_nil (mi mb : Nat) (l : List Entry) (n b : Nat) (h : l ≠ []) : takeLim mi mb l n b ≠ [] := by
-  cases l with
-  | nil => exact absurd rfl h
-  | cons e r => simp only [takeLim]; split <;> simp
-
-theorem lastVer_mem : ∀ (p : List Entry) (d : Int), p ≠ [] → ∃ x ∈ p, x.ver = lastVer p d := by
-  intro p
-  induction p with
-  | nil => intro d h; exact absurd rfl h
-  | cons e r ih =>
-    intro d _
-    cases r with
-    | nil => exact ⟨e, by simp, rfl⟩
-    | cons e2 r2 =>
-      obtain ⟨x, hx, hv⟩ := ih d (by simp)
-      exact ⟨x, List.mem_cons_of_mem _ hx, by simpa [lastVer] using hv⟩
-
-/-- a non-empty prefix of an ascending list contains every element up to its last version -/
-theorem prefix_complete (l p : List Entry) (d : Int) (hp : p <+: l) (hne : p ≠ [])
-    (hs : l.Pairwise (fun a b => a.ver < b.ver)) : ∀ e ∈ l, e.ver ≤ lastVer p d → e ∈ p := by
-  intro e he hle
-  obtain ⟨t, rfl⟩ := hp
-  rcases List.mem_append.mp he with h | h
-  · exact h
-  · exfalso
-    obtain ⟨x, hx, hv⟩ := lastVer_mem p d hne
-    have := (List.pairwise_append.mp hs).2.2 x hx e h
-    omega
-
-/-- C20 (diff delivery): whatever the item / byte limits and wherever the response is cut, the delivered events are
-    the upstream entries with versions in (from, last delivered] — none is skipped; and a request below the upstream
-    version is never answered with nothing. -/
-theorem delivery_never_skips (j : J) (hsorted : j.entries.Pairwise (fun a b => a.ver < b.ver))
-    (from_ : Int) (mi mb cut : Nat) :
-    let evs := (diff j from_ mi mb).take cut
-    (evs ≠ [] → ∀ e ∈ j.entries, from_ < e.ver → e.ver ≤ lastVer evs from_ → e ∈ evs) ∧
-    (∀ e ∈ evs, e ∈ j.entries ∧ from_ < e.ver) ∧
-    ((∃ e ∈ j.entries, from_ < e.ver) → from_ < j.cur → diff j from_ mi mb ≠ []) := by
-  intro evs
-  have hpre : diff j from_ mi mb <+: j.entries.filter (fun e => decide (from_ < e.ver)) := by
-    unfold diff; split
-    · exact List.nil_prefix
-    · exact takeLim_prefix _ _ _ _ _
-  have hpre2 : evs <+: j.entries.filter (fun e => decide (from_ < e.ver)) :=
-    (List.take_prefix _ _).trans hpre
-  refine ⟨?_, ?_, ?_⟩
-  · intro hne e he hlt hle
-    exact prefix_complete _ evs from_ hpre2 hne (hsorted.filter _) e (List.mem_filter.mpr ⟨he, by simpa using hlt⟩) hle
-  · intro e he
-    have := List.mem_filter.mp (hpre2.subset he)
-    exact ⟨this.1, by simpa using this.2⟩
-  · intro ⟨e, he, hlt⟩ hcur
-    unfold diff
-    rw [if_neg (by omega)]
-    apply takeLim_ne_nil
-    intro hnil
-    have : e ∈ j.entries.filter (fun e => decide (from_ < e.ver)) := List.mem_filter.mpr ⟨he, by simpa using hlt⟩
-    rw [hnil] at this; simp at this
 
 /-! ## H. group assignment: first match in name-descending order = longest matching prefix -/
 
@@ -1052,43 +793,10 @@ theorem same_contents_same_hash (j1 j2 : J) (h1 : JInv j1) (h2 : JInv j2)
     (hp : (j1.entries.map (·.hash)).Perm (j2.entries.map (·.hash))) : j1.hash = j2.hash := by
   rw [h1.hash, h2.hash]; exact xorAll_perm _ _ hp
 
-/-! ## G. truncated files -/
-
-theorem keepChunks_prefix : ∀ (cs : List Chunk) (keep : Nat), keepChunks cs keep <+: cs := by
-  intro cs
-  induction cs with
-  | nil => intro k; simp [keepChunks]
-  | cons c r ih =>
-    intro k
-    simp only [keepChunks]
-    split
-    · exact (List.prefix_cons_inj c).mpr (ih _)
-    · exact List.nil_prefix
-
-/-- C20 (truncated reload): whatever the cut offset, the file that is read back consists of a prefix of the chunks that
-    were written (complete chunks only), so the reloaded journal is built from a prefix of the saved entry sequence. -/
-theorem truncate_keeps_prefix (f : File) (keep : Nat) : (truncate f keep).chunks <+: f.chunks := by
-  unfold truncate
-  split
-  · exact List.prefix_refl _
-  · exact keepChunks_prefix _ _
-
 /-
-  NOT PROVED as one theorem (kept as the statement the property asks for):
-
-    theorem converges (tab) (H : source history) (sched : List Op)   -- src / deliver r items bytes cut / save r / restart r keep
-        (tree : replica topology, some compact) :
-        let w := run tab tree sched
-        ∀ r, synced w r → (∀ entity e of H, stored w r e = chainForm tab tree r (latest H e)) ∧
-             ∀ r', sameUpstream r r' → synced w r' → (w.rep r).j.hash = (w.rep r').j.hash
-
-  What is proved of it: every journal reached by any schedule satisfies `JInv` (`applyUpdate_inv`, `load_inv`);
-  a delivery hands over a gap-free prefix of what the requester lacks (`delivery_never_skips`) and the requester's
-  loaderVersion becomes the last delivered version (by definition of `applyUpdate`); a reload keeps a prefix and restarts
-  from at most the last version read (`truncate_keeps_prefix`, `load_inv`); equal contents give equal hashes
-  (`same_contents_same_hash`). The induction that combines them over a whole replica tree with compaction skips is
-  missing; cmd/verif-c20 checks the combined statement on the real code whenever a replica is synced
-  (oracle signatures replica-missing-entity, replica-stale-entity, replica-extra-entity, hash-diverged*).
+  The end-to-end convergence statement is section J (`converges`, `replicas_same_hash`), proved over every schedule of
+  one hop in SH/Lemmas/JournalConv.lean. `converges_step_partial` below is kept from the first round; it is subsumed by
+  `conv_deliver`.
 -/
 
 /-- one delivery step of the non-compact chain: everything handed over is stored with its version, nothing else
@@ -1172,5 +880,362 @@ example : (diff { entries := [mkEntry tabW 2 2, mkEntry tabW 5 1], cur := 5 } 0 
 
 /-- non-vacuity for the group theorem: "ab" wins over "a" for metric "abc", order of arrival irrelevant -/
 example : calcGroup (sortGroups [] [{ id := 7, name := [97], ver := 1 }, { id := 8, name := [97, 98], ver := 2 }]) [97, 98, 99] = 8 := by decide
+
+/-! ## J. convergence of a replica under every schedule (SH/Lemmas/JournalConv.lean) -/
+
+/-- C20 (replicas converge). One hop of the chain: an upstream journal that only grows (the source — or any journal
+    that is never rolled back) and a replica of either kind with its journal file. For EVERY schedule of upstream
+    edits, deliveries (any item / byte limits, cut anywhere), `Save()` and restarts from the file truncated at any byte
+    offset, as long as the Go code does not panic (`runW … = some w`; it cannot, see `conv_deliver`/`add` — versions
+    handed over are above currentVersion):
+      * both journals keep one entry per entity, ascending, state hash = xor of entry hashes (`WInv.jU/jR`),
+      * the replica is complete up to its loaderVersion and holds nothing foreign (`WInv.conv`),
+      * and whenever the replica's loaderVersion has reached the upstream version: the replica holds exactly the
+        upstream's entities that compaction does not discard, each with the content `storedAs` gives for the upstream's
+        latest version (transported; compacted for compact journals), with the upstream's version when the replica is
+        not compact (a compact replica may keep the older version whose compact form is identical). -/
+theorem converges (tab : Nat → Content) (c : Bool) (hT : TabOK tab c) (ops : List Op) (w : W)
+    (h : runW tab { R := { compact := c } } ops = some w) :
+    WInv tab w ∧ w.R.compact = c ∧
+    (w.U.cur ≤ w.R.lv →
+      (∀ u ∈ w.U.entries, ∀ f, storedAs tab c u.k = some f →
+          ∃ r ∈ w.R.entries, sameKey r u = true ∧ r.k = f ∧ r.ver ≤ u.ver ∧ (c = false → r.ver = u.ver)) ∧
+      (∀ r ∈ w.R.entries, ∃ u ∈ w.U.entries, sameKey r u = true ∧ storedAs tab c u.k = some r.k)) := by
+  obtain ⟨hi, hc⟩ := runW_inv tab ops _ w hT (winv_init tab c) h
+  simp only at hc
+  refine ⟨hi, hc, ?_⟩
+  intro hs
+  have := synced_contents tab w.R w.U hi.conv hi.jR hi.jU hs
+  rw [hc] at this
+  exact this
+
+/-- C20 (replicas of the same journal end with identical state hashes). Two replicas of the same kind, each with its
+    own schedule of deliveries, saves and truncated restarts, over the same upstream history: whenever both have caught
+    up with the upstream journal their state hashes are equal. -/
+theorem replicas_same_hash (tab : Nat → Content) (c : Bool) (hT : TabOK tab c) (ops1 ops2 : List Op) (w1 w2 : W)
+    (h1 : runW tab { R := { compact := c } } ops1 = some w1) (h2 : runW tab { R := { compact := c } } ops2 = some w2)
+    (hU : w1.U = w2.U) (s1 : w1.U.cur ≤ w1.R.lv) (s2 : w2.U.cur ≤ w2.R.lv) : w1.R.hash = w2.R.hash := by
+  obtain ⟨i1, c1⟩ := runW_inv tab ops1 _ w1 hT (winv_init tab c) h1
+  obtain ⟨i2, c2⟩ := runW_inv tab ops2 _ w2 hT (winv_init tab c) h2
+  have conv2 := i2.conv
+  rw [← hU] at conv2 s2
+  exact synced_same_hash tab w1.R w2.R w1.U i1.conv conv2 i1.jR i2.jR i1.jU (c1.trans c2.symm) s1 s2
+
+/-
+  What is still outside the theorem: a replica whose *upstream itself* is rolled back (an agent behind an aggregator
+  that restarts from an old or truncated file). `converges` covers source → aggregator completely (the source is never
+  rolled back) and aggregator → agent for as long as the aggregator's journal only grows; with upstream rollbacks the
+  agent can be transiently ahead of the aggregator and the invariant relative to the immediate upstream does not hold
+  (it would have to be stated relative to the source, through two `storedAs` maps and content-equal version skips).
+  cmd/verif-c20 checks that case on the real code (replicas 2,3 behind the restarting compact aggregator 1; oracle
+  signatures replica-missing-entity / replica-stale-entity / replica-extra-entity / hash-diverged*).
+-/
+
+/-- the observed functions of the witness table satisfy `TabOK` for both kinds (hypothesis of `converges` is satisfiable) -/
+theorem tabW_ok (c : Bool) : TabOK tabW c := by
+  refine ⟨?_, ?_, ?_, ?_⟩
+  · intro k f h; cases c <;> simp [storedAs, tabW] at h <;> subst h <;> exact ⟨rfl, rfl⟩
+  · intro k; exact ⟨rfl, rfl⟩
+  · intro k k' _ _; cases c <;> simp [storedAs, tabW]
+  · intro k; simp [tabW]
+
+/-- a schedule with a limited delivery, a save, a later edit of a delivered entity, a restart from a file cut inside
+    its only chunk (everything is lost) and re-delivery: the replica catches up and `converges` applies -/
+def wOps : List Op :=
+  [.upAdd 1 0, .upAdd 2 2, .deliver 1 1000 5, .save, .upAdd 5 1, .restart 30, .deliver 1000 100000 100]
+
+example : ∃ w, runW tabW { R := { compact := true } } wOps = some w ∧ w.U.cur ≤ w.R.lv ∧
+    w.R.entries.map (fun e => (e.ver, e.k)) = [(2, 2), (5, 1)] ∧ w.R.hash = w.U.hash := by
+  refine ⟨_, rfl, by decide, by decide, by decide⟩
+
+/-- the same upstream history, another schedule (no restart, one-item deliveries): same hash, as `replicas_same_hash` says -/
+example : ∃ w, runW tabW { R := { compact := true } }
+      [.upAdd 1 0, .deliver 1 1 1, .upAdd 2 2, .upAdd 5 1, .deliver 1 1 1, .save, .restart 1000, .deliver 1 1 1] = some w ∧
+    w.U.cur ≤ w.R.lv ∧ w.R.hash = 1002 ^^^ 1001 := by
+  refine ⟨_, rfl, by decide, by decide⟩
+
+/-! ## H2. groupsOrdered is the set of enabled user groups after EVERY batch -/
+
+def KeysNodup (l : List (Int × Ent)) : Prop := (l.map (·.1)).Nodup
+
+theorem aset_keys (l : List (Int × Ent)) (k : Int) (v : Ent) :
+    (aset l k v).map (·.1) = if k ∈ l.map (·.1) then l.map (·.1) else l.map (·.1) ++ [k] := by
+  induction l with
+  | nil => simp [aset]
+  | cons p r ih =>
+    obtain ⟨k0, v0⟩ := p
+    by_cases h0 : k0 = k
+    · subst h0; simp [aset]
+    · have hne : ¬ k = k0 := fun h => h0 h.symm
+      simp only [aset, h0, if_false, List.map_cons, List.mem_cons, hne, false_or, ih]
+      split <;> simp
+
+theorem aset_nodup (l : List (Int × Ent)) (k : Int) (v : Ent) (h : KeysNodup l) : KeysNodup (aset l k v) := by
+  unfold KeysNodup at *
+  rw [aset_keys]
+  split
+  · exact h
+  · rename_i hk
+    exact List.nodup_append.mpr ⟨h, by simp, by intro a ha b hb; simp at hb; subst hb; intro hab; subst hab; exact hk ha⟩
+
+theorem aget_of_mem (l : List (Int × Ent)) (k : Int) (v : Ent) (hn : KeysNodup l) (hm : (k, v) ∈ l) : aget l k = some v := by
+  induction l with
+  | nil => simp at hm
+  | cons p r ih =>
+    obtain ⟨k0, v0⟩ := p
+    unfold KeysNodup at hn
+    simp only [List.map_cons, List.nodup_cons] at hn
+    rcases List.mem_cons.mp hm with h | h
+    · injection h with h1 h2; subst h1; subst h2; simp [aget]
+    · have hk : k0 ≠ k := by
+        intro he; subst he
+        exact hn.1 (List.mem_map.mpr ⟨(k0, v), h, rfl⟩)
+      simp only [aget, hk, if_false]
+      exact ih hn.2 h
+
+/-- the key invariant of groupsByID: keys are the ids, no key twice -/
+def GK (st : Store) : Prop := KeysNodup st.groups.byId ∧ ∀ id g, aget st.groups.byId id = some g → g.id = id
+
+/-- groupsOrdered = the enabled user groups (as (id, name) pairs; the stored copies may be older versions) -/
+def GOrd (st : Store) : Prop :=
+  (∀ g ∈ st.ordered, userEnabled g = true ∧
+      ∃ g', aget st.groups.byId g.id = some g' ∧ g'.name = g.name ∧ userEnabled g' = true) ∧
+  (∀ id g', aget st.groups.byId id = some g' → userEnabled g' = true → ∃ g ∈ st.ordered, g.id = id ∧ g.name = g'.name)
+
+theorem groupChanged_false (st : Store) (e : IEv) (h : groupChanged st e = false) :
+    ∃ old, aget st.groups.byId e.id = some old ∧ old.name = e.name ∧ old.dis = e.dis := by
+  unfold groupChanged at h
+  split at h
+  · rename_i old ho
+    simp at h
+    exact ⟨old, ho, h.1, h.2⟩
+  · simp at h
+
+theorem gk_applyOne (v : Variant) (s : Store × Bool) (e : IEv) (h : GK s.1) : GK (applyOne v s e).1 := by
+  unfold applyOne
+  split
+  · exact h
+  · split
+    · exact h
+    · split
+      · simp only [applyGroup, upsert, put, GK, renameOut_byId]
+        refine ⟨aset_nodup _ _ _ h.1, ?_⟩
+        intro id g hg
+        by_cases hid : id = e.id
+        · subst hid; rw [get_set_same] at hg; injection hg with hg; rw [← hg]
+        · rw [get_set_other _ _ _ _ hid] at hg; exact h.2 id g hg
+      · split
+        · exact h
+        · exact h
+
+theorem gord_applyOne (v : Variant) (s : Store × Bool) (e : IEv) (hk : GK s.1) (h : s.2 = false → GOrd s.1) :
+    (applyOne v s e).2 = false → GOrd (applyOne v s e).1 := by
+  unfold applyOne
+  split
+  · exact h
+  · split
+    · intro h2; exact h h2
+    · split
+      · intro h2
+        simp only [Bool.or_eq_false_iff] at h2
+        obtain ⟨old, ho, hn, hd⟩ := groupChanged_false s.1 e h2.2
+        have hg := h h2.1
+        have hoid := hk.2 e.id old ho
+        have hen : userEnabled ({ id := e.id, name := e.name, ver := e.ver, dis := e.dis } : Ent) = userEnabled old := by
+          simp [userEnabled, hoid, hd]
+        simp only [GOrd, applyGroup, upsert, put, renameOut_byId]
+        refine ⟨?_, ?_⟩
+        · intro g hgm
+          obtain ⟨a, g', b1, b2, b3⟩ := hg.1 g hgm
+          refine ⟨a, ?_⟩
+          by_cases hid : g.id = e.id
+          · rw [hid, get_set_same]
+            rw [hid, ho] at b1; injection b1 with b1; subst b1
+            exact ⟨_, rfl, by simp only; rw [← hn]; exact b2, by rw [hen]; exact b3⟩
+          · rw [get_set_other _ _ _ _ hid]; exact ⟨g', b1, b2, b3⟩
+        · intro id g' hg' hen'
+          by_cases hid : id = e.id
+          · subst hid
+            rw [get_set_same] at hg'; injection hg' with hg'; subst hg'
+            obtain ⟨g, c1, c2, c3⟩ := hg.2 e.id old ho (by rw [← hen]; exact hen')
+            exact ⟨g, c1, c2, by simp only; rw [c3, hn]⟩
+          · rw [get_set_other _ _ _ _ hid] at hg'; exact hg.2 id g' hg' hen'
+      · split
+        · intro h2; exact h h2
+        · exact h
+
+theorem gord_rebuild (v : Variant) (tie : List Int) (st : Store) (hk : GK st) : GOrd (rebuild v tie st) := by
+  obtain ⟨_, hmem, _⟩ := rebuild_groups v tie st
+  have hgr : (rebuild v tie st).groups = st.groups := by cases v <;> rfl
+  simp only [GOrd, hgr]
+  refine ⟨?_, ?_⟩
+  · intro g hg
+    obtain ⟨h1, h2⟩ := (hmem g).mp hg
+    obtain ⟨p, hp, rfl⟩ := List.mem_map.mp h1
+    have := aget_of_mem _ p.1 p.2 hk.1 hp
+    have hid := hk.2 p.1 p.2 this
+    exact ⟨h2, p.2, by rw [hid]; exact this, rfl, h2⟩
+  · intro id g' hg' hen
+    have hm := aget_mem _ _ _ hg'
+    exact ⟨g', (hmem g').mpr ⟨List.mem_map.mpr ⟨(id, g'), hm, rfl⟩, hen⟩, hk.2 id g' hg', rfl⟩
+
+theorem gk_init : GK MetaIndex.init := by
+  refine ⟨by simp [KeysNodup, MetaIndex.init, SH.Gen.C20.builtinGroups], ?_⟩
+  exact (sinv_init []).g.key
+
+/-- C20 (groups, every batch): after ANY sequence of ApplyEvent calls — also those that end without a regrouping pass —
+    groupsOrdered is name-descending and is exactly the set of enabled user groups of groupsByID (same ids and names;
+    the stored copies can be older versions of the same group, which is all `calcGroupForMetricLocked` reads). With
+    `group_assignment` and `calcGroup_longest_prefix`: every metric's group is the enabled user group with the longest
+    name that is a prefix of the metric's name, at every batch boundary, for both code variants. -/
+theorem groups_ordered_every_batch (v : Variant) (bs : List (List Int × List IEv)) :
+    let st := applyTied v MetaIndex.init bs
+    Desc st.ordered ∧ GOrd st := by
+  intro st
+  refine ⟨(group_assignment v bs).1, ?_⟩
+  have fold : ∀ (evs : List IEv) (s : Store × Bool), GK s.1 → (s.2 = false → GOrd s.1) →
+      GK (evs.foldl (applyOne v) s).1 ∧ ((evs.foldl (applyOne v) s).2 = false → GOrd (evs.foldl (applyOne v) s).1) := by
+    intro evs
+    induction evs with
+    | nil => intro s a b; exact ⟨a, b⟩
+    | cons e r ih => intro s a b; exact ih _ (gk_applyOne v s e a) (gord_applyOne v s e a b)
+  have batch : ∀ (tie : List Int) (st0 : Store) (evs : List IEv), GK st0 → GOrd st0 →
+      GK (applyBatch v tie st0 evs) ∧ GOrd (applyBatch v tie st0 evs) := by
+    intro tie st0 evs a b
+    obtain ⟨c, d⟩ := fold evs (st0, false) a (fun _ => b)
+    unfold applyBatch finish
+    split
+    · have hgr : (rebuild v tie (evs.foldl (applyOne v) (st0, false)).1).groups
+          = (evs.foldl (applyOne v) (st0, false)).1.groups := by cases v <;> rfl
+      exact ⟨by simp only [GK, hgr]; exact c, gord_rebuild v tie _ c⟩
+    · rename_i hch
+      exact ⟨c, d (by simpa using hch)⟩
+  have all : ∀ (bs : List (List Int × List IEv)) (st0 : Store), GK st0 → GOrd st0 →
+      GOrd (applyTied v st0 bs) := by
+    intro bs
+    induction bs with
+    | nil => intro st0 _ b; exact b
+    | cons b r ih =>
+      intro st0 a c
+      obtain ⟨a', c'⟩ := batch b.1 st0 b.2 a c
+      exact ih _ a' c'
+  refine all bs MetaIndex.init gk_init ⟨by intro g hg; simp [MetaIndex.init] at hg, ?_⟩
+  intro id g' hg' hen
+  exfalso
+  have hm := aget_mem _ _ _ hg'
+  simp [MetaIndex.init, SH.Gen.C20.builtinGroups] at hm
+  rcases hm with ⟨rfl, rfl⟩ | ⟨rfl, rfl⟩ | ⟨rfl, rfl⟩ <;> simp [userEnabled] at hen
+
+
+/-- non-vacuity / the case the first-round theorem did not cover: the second batch edits group 7 without changing its
+    name or its disable flag, so no regrouping pass runs, and groupsOrdered still lists exactly the enabled user group -/
+example :
+    let st := applyTied .fixed MetaIndex.init
+      [([], [{ typ := 2, id := 7, name := [97], ver := 1, ok := true, dis := false }]),
+       ([], [{ typ := 2, id := 7, name := [97], ver := 2, ok := true, dis := false },
+             { typ := 0, id := 1, name := [97, 98], ver := 3, ok := true, dis := false }])]
+    st.ordered.map (fun g => (g.id, g.ver)) = [(7, 1)] ∧ (aget st.groups.byId 7).map (·.ver) = some 2 ∧
+    (aget st.metrics.byId 1).map (·.grp) = some 7 := by decide
+
+/-! ## C2. what the source guarantees: the name is free *at the moment of the edit* — renames and reuse of freed
+    names are allowed -/
+
+/-- histories a name-checking source (the metadata engine's UNIQUE(type, name)) can produce: events come with increasing
+    versions, and an event is accepted iff, at that moment, no OTHER entity of the type holds the name. A name that was
+    freed by a rename may be taken by anybody afterwards. -/
+inductive Valid : List SEv → Prop
+  | nil : Valid []
+  | snoc (H : List SEv) (e : SEv) : Valid H → (∀ e' ∈ H, e'.ver < e.ver) →
+      (∀ e2, Latest H e2 e.ver → e2.typ = e.typ → e2.name = e.name → e2.id = e.id) → Valid (H ++ [e])
+
+theorem latest_before (H : List SEv) (e x : SEv) (v : Int) (hv : v < e.ver) (h : Latest (H ++ [e]) x v) : Latest H x v := by
+  obtain ⟨h1, h2, h3⟩ := h
+  have hx : x ∈ H := by
+    rcases List.mem_append.mp h1 with a | a
+    · exact a
+    · simp at a; subst a; omega
+  exact ⟨hx, h2, fun e' he' => h3 e' (List.mem_append_left _ he')⟩
+
+theorem latest_after (H : List SEv) (e x : SEv) (v : Int) (hnew : ∀ e' ∈ H, e'.ver < e.ver) (hv : e.ver ≤ v)
+    (h : Latest (H ++ [e]) x v) : x = e ∨ Latest H x e.ver := by
+  obtain ⟨h1, h2, h3⟩ := h
+  rcases List.mem_append.mp h1 with a | a
+  · right
+    have := hnew x a
+    refine ⟨a, by omega, ?_⟩
+    intro e' he' t1 t2 _
+    exact h3 e' (List.mem_append_left _ he') t1 t2 (by have := hnew e' he'; omega)
+  · left; simpa using a
+
+/-- a source that checks the name at each edit never has two holders of a name at any version -/
+theorem valid_unique (H : List SEv) (h : Valid H) : UniqueNames H := by
+  induction h with
+  | nil => intro v e1 e2 l1; exact absurd l1.1 (by simp)
+  | snoc H e _ hnew hacc ih =>
+    intro v e1 e2 l1 l2 ht hn
+    by_cases hv : v < e.ver
+    · exact ih v e1 e2 (latest_before H e e1 v hv l1) (latest_before H e e2 v hv l2) ht hn
+    · have hv' : e.ver ≤ v := by omega
+      rcases latest_after H e e1 v hnew hv' l1 with h1 | a1 <;>
+        rcases latest_after H e e2 v hnew hv' l2 with h2 | a2
+      · rw [h1, h2]
+      · rw [h1] at ht hn ⊢; exact (hacc e2 a2 ht.symm hn.symm).symm
+      · rw [h2] at ht hn ⊢; exact hacc e1 a1 ht hn
+      · exact ih e.ver e1 e2 a1 a2 ht hn
+
+/-- C20 (name lookups, stated for every history a name-checking source can produce — renames and reuse of freed names
+    included): same conclusion as `lookup_by_name_current`. -/
+theorem lookup_by_name_checked_source (H : List SEv) (hV : Valid H) (bs : List (List Int × List IEv))
+    (hsub : ∀ e ∈ allEvents bs, srcOf e ∈ H) (hpos : ∀ e ∈ allEvents bs, 0 < e.ver)
+    (hinc : (allEvents bs).Pairwise (fun a b => a.ver < b.ver)) :
+    let st := applyTied .fixed MetaIndex.init bs
+    (∀ m, aget st.metrics.byId m.id = some m → 0 < m.ver → Stable H SH.Gen.C20.metricEvent m.id m.name m.ver →
+        aget st.metrics.byName m.name = some m) ∧
+    (∀ g, aget st.groups.byId g.id = some g → 0 < g.ver → Stable H SH.Gen.C20.metricsGroupEvent g.id g.name g.ver →
+        aget st.groups.byName g.name = some g) ∧
+    (∀ n, aget st.nss.byId n.id = some n → 0 < n.ver → Stable H SH.Gen.C20.namespaceEvent n.id n.name n.ver →
+        aget st.nss.byName n.name = some n) ∧
+    I1 st.metrics ∧ I1 st.groups ∧ I1 st.nss :=
+  lookup_by_name_current H (valid_unique H hV) bs hsub hpos hinc
+
+/-- the reuse history of the defect (A "x", A → "y", B takes the freed "x", A edited) is such a history -/
+theorem wH_valid : Valid wH := by
+  have e0 : wH = ((([] ++ [sA1]) ++ [sA2]) ++ [sB3]) ++ [sA4] := rfl
+  rw [e0]
+  refine Valid.snoc _ _ (Valid.snoc _ _ (Valid.snoc _ _ (Valid.snoc _ _ Valid.nil ?_ ?_) ?_ ?_) ?_ ?_) ?_ ?_
+  · intro e' he'; simp at he'
+  · intro e2 l; exact absurd l.1 (by simp)
+  · decide
+  · intro e2 l _ hn
+    have := l.1; simp at this; subst this; revert hn; decide
+  · decide
+  · intro e2 l _ hn
+    have hm := l.1
+    simp at hm
+    rcases hm with rfl | rfl
+    · exfalso
+      have := l.2.2 sA2 (by simp) rfl rfl (by decide)
+      revert this; decide
+    · revert hn; decide
+  · decide
+  · intro e2 l _ hn
+    have hm := l.1
+    simp at hm
+    rcases hm with rfl | rfl | rfl
+    · revert hn; decide
+    · rfl
+    · revert hn; decide
+
+/-- …so the theorem applies to it: on the fixed code the replica that saw A as "x" and then receives [B@3, A@4] finds B
+    under "x" (derived from the theorem, not by evaluation) -/
+theorem lookup_after_reuse :
+    aget (applyTied .fixed MetaIndex.init wBatches).metrics.byName x_ = some { id := 2, name := x_, ver := 3, grp := -4 } := by
+  have h := (lookup_by_name_checked_source wH wH_valid wBatches (by decide) (by decide) (by decide)).1
+    { id := 2, name := x_, ver := 3, grp := -4 } (by decide) (by decide)
+  apply h
+  intro e he _ hid _
+  simp only [wH, List.mem_cons, List.not_mem_nil, or_false] at he
+  rcases he with rfl | rfl | rfl | rfl <;> first | rfl | (exfalso; revert hid; decide)
+
 
 end SH.C20
